@@ -954,3 +954,80 @@ func first(a, _ []byte) []byte { return a }
 //@     invariant 0 <= depth && depth <= len(prefix) && n.pointer != nil && liveRef(n)
 //@     decreases len(prefix) - depth
 
+
+// rangeScan: pruned in-order scan. Rung 1: safety (every index, cast, the unsafe.Slice of
+// the inline prefix), purity, iterator protocol. The depth carried per stack entry is not
+// related to the ghost depth at this rung, so the addition childDepth := depth +
+// prefixLen + 1 cannot be bounded (its overflow obligation is generated, not claimed).
+//@ spec stacksOK(q, depths) = stackOK(q) && len(depths) == len(q) && forall(j, 0, len(depths), 0 <= depths[j])
+//@ func rangeScan$1@alpha
+//@   opt kind alpha
+//@   opt leaf alphaLeafNode
+//@   opt casts on
+//@   opt extent on
+//@   requires root.pointer != nil && liveRef(root) && HeapOK_alpha() && LinkedLive() && leafT() == typeid(alphaLeafNode)
+//@   ensures[pure] frame()
+//@   loop 1 (q)
+//@     invariant stacksOK(q, depths)
+//@   loop 2 (i)
+//@     invariant stacksOK(q, depths) && 0 - 1 <= i && i < n4.childrenLen
+//@   loop 3 (i)
+//@     invariant stacksOK(q, depths) && 0 - 1 <= i && i < n16.childrenLen
+//@   loop 4 (i)
+//@     invariant stacksOK(q, depths) && 0 - 1 <= i && i <= 255
+//@   loop 5 (i)
+//@     invariant stacksOK(q, depths) && 0 - 1 <= i && i <= 255
+
+//@ func rangeScan$1@unsigned
+//@   opt kind unsigned
+//@   opt leaf unsignedLeafNode
+//@   opt casts on
+//@   opt extent on
+//@   requires root.pointer != nil && liveRef(root) && HeapOK_unsigned() && LinkedLive() && leafT() == typeid(unsignedLeafNode)
+//@   ensures[pure] frame()
+//@   loop 1 (q)
+//@     invariant stacksOK(q, depths)
+//@   loop 2 (i)
+//@     invariant stacksOK(q, depths) && 0 - 1 <= i && i < n4.childrenLen
+//@   loop 3 (i)
+//@     invariant stacksOK(q, depths) && 0 - 1 <= i && i < n16.childrenLen
+//@   loop 4 (i)
+//@     invariant stacksOK(q, depths) && 0 - 1 <= i && i <= 255
+//@   loop 5 (i)
+//@     invariant stacksOK(q, depths) && 0 - 1 <= i && i <= 255
+
+//@ func rangeScan$1@compound
+//@   opt kind compound
+//@   opt leaf compoundLeafNode
+//@   opt casts on
+//@   opt extent on
+//@   requires root.pointer != nil && liveRef(root) && HeapOK_compound() && LinkedLive() && leafT() == typeid(compoundLeafNode)
+//@   ensures[pure] frame()
+//@   loop 1 (q)
+//@     invariant stacksOK(q, depths)
+//@   loop 2 (i)
+//@     invariant stacksOK(q, depths) && 0 - 1 <= i && i < n4.childrenLen
+//@   loop 3 (i)
+//@     invariant stacksOK(q, depths) && 0 - 1 <= i && i < n16.childrenLen
+//@   loop 4 (i)
+//@     invariant stacksOK(q, depths) && 0 - 1 <= i && i <= 255
+//@   loop 5 (i)
+//@     invariant stacksOK(q, depths) && 0 - 1 <= i && i <= 255
+
+//@ func rangeScan$1@collation
+//@   opt kind collation
+//@   opt leaf collateLeafNode
+//@   opt casts on
+//@   opt extent on
+//@   requires root.pointer != nil && liveRef(root) && HeapOK_collation() && LinkedLive() && leafT() == typeid(collateLeafNode)
+//@   ensures[pure] frame()
+//@   loop 1 (q)
+//@     invariant stacksOK(q, depths)
+//@   loop 2 (i)
+//@     invariant stacksOK(q, depths) && 0 - 1 <= i && i < n4.childrenLen
+//@   loop 3 (i)
+//@     invariant stacksOK(q, depths) && 0 - 1 <= i && i < n16.childrenLen
+//@   loop 4 (i)
+//@     invariant stacksOK(q, depths) && 0 - 1 <= i && i <= 255
+//@   loop 5 (i)
+//@     invariant stacksOK(q, depths) && 0 - 1 <= i && i <= 255
